@@ -79,6 +79,7 @@ FAMILIES = {
     "C37": ["srcfac"],
     "C10": ["seqcomp"],
     "C24": ["mcast"],
+    "C22": ["replay"],
     "C32": ["schedobs"],
     "C40": ["op", "resrc"],
     "C08": ["opacity"],
@@ -116,6 +117,8 @@ def units_for(prop, tier):
         us += class_units(prop)
     if "schedobs" in fams:
         us.append({"runner": "schedobs", "prop": prop, "id": "reactivex/observer/scheduledobserver.py::ScheduledObserver"})
+    if "replay" in fams:
+        us.append({"runner": "replay", "prop": prop, "id": "reactivex/subject/replaysubject.py::ReplaySubject"})
     if "mcast" in fams:
         us.append({"runner": "mcast", "prop": prop, "id": "reactivex/observable/connectableobservable.py::multicasting"})
     if "seqcomp" in fams:
